@@ -1107,6 +1107,145 @@ theorem write_read_model (S : Schema) (sks : List String) (rows : List Row)
   rw [hlenrows] at this
   exact this
 
+theorem wrap_mem (W : Nat) (fuel : Nat) (s : Bytes) : ∀ x ∈ wrap W fuel s, ∀ b ∈ x, b ∈ s := by
+  induction fuel generalizing s with
+  | zero => intro x hx; simp [wrap] at hx
+  | succ k ih =>
+    intro x hx
+    simp only [wrap] at hx
+    split at hx
+    · simp at hx
+    · simp only [List.mem_cons] at hx
+      rcases hx with rfl | hx
+      · intro b hb; exact List.mem_of_mem_take hb
+      · intro b hb; exact List.mem_of_mem_drop (ih (s.drop W) x hx b hb)
+
+theorem fastaSpec_unlines (W : Nat) (entries : List (Bytes × Bytes)) :
+    fastaSpec W entries = unlines (C02.fastaSer 62 (entries.map (fun e => (e.1, wrap W e.2.length e.2)))) := by
+  unfold fastaSpec unlines C02.fastaSer
+  induction entries with
+  | nil => rfl
+  | cons e rest ih =>
+    simp only [List.flatMap_cons, List.map_cons, List.map_append, List.flatten_append, List.flatten_cons] at ih ⊢
+    rw [ih]
+
+/-- **fasta_write_read_model.** Model-level FASTA round trip: for every line width `W ≥ 1` and every list of records
+whose names contain no newline and whose sequences contain neither a newline nor the record marker '>': grouping
+(with the model of the code's reader) the lines of the bytes built by the model of the code's writer returns every
+name and every sequence — the empty ones included — exactly. -/
+theorem fasta_write_read_model (W : Nat) (hW : 0 < W) (entries : List (Bytes × Bytes))
+    (hname : ∀ e ∈ entries, 10 ∉ e.1) (hseq : ∀ e ∈ entries, 10 ∉ e.2 ∧ 62 ∉ e.2) :
+    C02.fastaGroup 62 (linesOf (dumpFasta W entries)) = (entries.map (·.1), entries.map (·.2)) := by
+  rw [fasta_layout W hW, fastaSpec_unlines]
+  have hfree : ∀ l ∈ C02.fastaSer 62 (entries.map (fun e => (e.1, wrap W e.2.length e.2))), 10 ∉ l := by
+    intro l hl
+    simp only [C02.fastaSer, List.mem_flatMap, List.mem_map] at hl
+    obtain ⟨p, ⟨e, he, rfl⟩, hl⟩ := hl
+    simp only [List.mem_cons] at hl
+    rcases hl with rfl | hl
+    · intro hm
+      simp only [List.mem_cons] at hm
+      rcases hm with h | h
+      · omega
+      · exact hname e he h
+    · intro hm
+      exact (hseq e he).1 (wrap_mem W _ _ l hl 10 hm)
+  rw [C02.linesOf_unlines _ hfree]
+  rw [C02.fasta_wrapped_join 62 _ (by
+    intro p hp l hl
+    simp only [List.mem_map] at hp
+    obtain ⟨e, he, rfl⟩ := hp
+    intro hh
+    have hmem : (62 : Nat) ∈ l := by
+      cases l with
+      | nil => simp at hh
+      | cons x xs => simp at hh; subst hh; simp
+    exact (hseq e he).2 (wrap_mem W _ _ l hl 62 hmem))]
+  simp only [List.map_map, Function.comp_def]
+  congr 1
+  apply List.map_congr_left
+  intro e _
+  exact fasta_unwrap W hW e.2.length e.2 (Nat.le_refl _)
+
+/-- the four lines of a FASTQ record -/
+def fastqLines (r : Row) : List Bytes :=
+  match r.map cellText with
+  | [n, s, q] => [64 :: n, s, [43], q]
+  | _ => []
+
+theorem fastqSpec_unlines (rows : List Row) : fastqSpec rows = unlines (rows.map fastqLines).flatten := by
+  unfold fastqSpec unlines
+  induction rows with
+  | nil => rfl
+  | cons r rest ih =>
+    simp only [List.flatMap_cons, List.map_cons, List.flatten_cons, List.map_append, List.flatten_append] at ih ⊢
+    rw [ih]
+    congr 1
+    unfold fastqLines
+    split
+    · rename_i heq; simp [heq]
+    · rename_i hne'
+      split
+      · rename_i n s q heq; exact absurd heq (hne' n s q)
+      · rfl
+
+/-- **fastq_write_read_model.** Model-level FASTQ round trip: for every non-empty list of records (name, sequence,
+qualities; no newline inside a text), the (start, end) table that the model of the reader builds on the bytes
+produced by the model of the writer denotes, record by record: the name (marker dropped), the sequence, the '+'
+line and the quality text. -/
+theorem fastq_write_read_model (rows : List Row) (hne : rows ≠ []) (h3 : ∀ r ∈ rows, r.length = 3)
+    (hfree : ∀ r ∈ rows, ∀ c ∈ r, 10 ∉ cellText c) :
+    ∃ t, C02.klineTable 4 [1, 0, 0, 0] (dumpFastq 64 [1, 0, 0, 0] rows) = .ok t ∧
+      t.map (fun e => e.map (fun p => C02.slice (dumpFastq 64 [1, 0, 0, 0] rows) p.1 p.2))
+        = rows.map (fun r => match r.map cellText with | [n, s, q] => [n, s, [43], q] | _ => []) := by
+  have hlen4 : ∀ ls ∈ rows.map fastqLines, ls.length = 4 := by
+    intro ls hls
+    simp only [List.mem_map] at hls
+    obtain ⟨r, hr, rfl⟩ := hls
+    have := h3 r hr
+    unfold fastqLines
+    match r, this with
+    | [a, b, c], _ => simp
+  have hbs : dumpFastq 64 [1, 0, 0, 0] rows = unlines (rows.map fastqLines).flatten := by
+    rw [fastq_layout rows h3, fastqSpec_unlines]
+  have hlfree : ∀ l ∈ (rows.map fastqLines).flatten, 10 ∉ l := by
+    intro l hl
+    simp only [List.mem_flatten, List.mem_map] at hl
+    obtain ⟨ls, ⟨r, hr, rfl⟩, hl⟩ := hl
+    have h3r := h3 r hr
+    have hf := hfree r hr
+    unfold fastqLines at hl
+    match r, h3r, hf, hl with
+    | [a, b, c], _, hf, hl =>
+      simp only [List.map_cons, List.map_nil, List.mem_cons, List.not_mem_nil, or_false] at hl
+      rcases hl with rfl | rfl | rfl | rfl
+      · intro hm
+        simp only [List.mem_cons] at hm
+        rcases hm with h | h
+        · omega
+        · exact hf a (by simp) h
+      · exact hf b (by simp)
+      · simp
+      · exact hf c (by simp)
+  have hlines : linesOf (dumpFastq 64 [1, 0, 0, 0] rows) = (rows.map fastqLines).flatten := by
+    rw [hbs]; exact C02.linesOf_unlines _ hlfree
+  have hcount : (linesOf (dumpFastq 64 [1, 0, 0, 0] rows)).length = rows.length * 4 := by
+    rw [hlines, C02.length_flatten_const 4 _ hlen4]; simp
+  have hpos : 0 < rows.length := List.length_pos_iff.mpr hne
+  obtain ⟨t, ht, htx⟩ := C02.kline_roles 4 [1, 0, 0, 0] (dumpFastq 64 [1, 0, 0, 0] rows) (by decide)
+    (by rw [hcount]; omega) (by rw [hcount]; omega)
+  refine ⟨t, ht, ?_⟩
+  rw [htx, hcount, Nat.mul_div_cancel _ (by decide : 0 < 4), hlines]
+  have hch := C02.chunkF_flatten 4 (rows.map fastqLines) hlen4
+  rw [List.length_map] at hch
+  rw [hch, List.map_map]
+  apply List.map_congr_left
+  intro r hr
+  have h3r := h3 r hr
+  simp only [Function.comp, fastqLines]
+  match r, h3r with
+  | [a, b, c], _ => simp
+
 /-! ### non-vacuity -/
 
 example : Additive (fun rows => dumpSpec 9 (rows.map (·.map cellText))) := by
